@@ -35,6 +35,7 @@ pub fn dispatch(name: &str) -> bool {
         "h_c02::delivery" => h_c02::delivery(),
         "h_c12::merged_arrays" => h_c12::merged_arrays(),
         "h_c12::maintenance" => h_c12::maintenance(),
+        "h_c12::update_in_conflict" => h_c12::update_in_conflict(),
         "h_hist::commit_graph" => h_hist::commit_graph(),
         "h_hist::time_travel" => h_hist::time_travel(),
         "h_c03::commit_reopen" => h_c03::commit_reopen(),
@@ -47,6 +48,7 @@ pub fn dispatch(name: &str) -> bool {
         "h_c07::resolve_both" => h_c07::resolve_both(),
         "h_c07::resolve_three" => h_c07::resolve_three(),
         "h_c10::damaged_merge" => h_c10::damaged_merge(),
+        "h_c10::live_damage" => h_c10::live_damage(),
         "h_c08::commit_with_array_conflict" => h_c08::commit_with_array_conflict(),
         "h_tree::tree_stage" => h_tree::tree_stage(),
         "h_c19::order_pair" => h_c19::order_pair(),
